@@ -178,6 +178,26 @@ pub fn run(ctx: &Ctx, rep: &mut Report) {
         }
         check(&s, &format!("random:{}", i), rep, false);
     });
+    // very long literal runs (4-70 k characters, ASCII and multi-byte) around a few directives: a maximal
+    // run is ONE literal whatever its length (chunked scanning shows as adjacent literals)
+    let n_long = ctx.pick(2, 400) + 6;
+    par_cases(ctx, "longrun", n_long, rep, |i, rep| {
+        let mut r = Rng::for_case(ctx.seed, "longrun", i);
+        let unit = ["a", "xy ", "\u{e9}", "0123456789", "w\u{4e2d}"][r.usize(5)];
+        let len = [4095usize, 4096, 4097, 8192, 8193, 16384, 65535, 65536, 65537, 70000][r.usize(10)] + r.usize(3);
+        let mut run = String::new();
+        while run.chars().count() < len {
+            run.push_str(unit);
+        }
+        let s = match r.below(4) {
+            0 => run,
+            1 => format!("%p{}", run),
+            2 => format!("{}%f\\n", run),
+            _ => format!("{}%s{}", run, run),
+        };
+        rep.count("very_long_literal_runs");
+        check(&s, &format!("longrun:{}", i), rep, false);
+    });
     // literal runs with multi-byte characters (2, 3 and 4 bytes, combining marks, exotic blanks, controls)
     // before, between and after directives and escapes: byte offsets and character counts differ there
     let mb = ['\u{e9}', '\u{df}', '\u{4e2d}', '\u{1f600}', '\u{301}', '\u{a0}', '\u{3000}', '\u{2028}', '\u{1}', '\u{7f}', '\u{feff}', '\t', '\n', 'a', ' ', '"', '~'];
